@@ -129,3 +129,40 @@ def lexer_error(pre_len: int, nl_at: int, post_len: int) -> bool:
         col = caret.index('^')
         return lines[0].startswith('Illegal character') and shown[0] == '>' and shown[col] == '#'
     return False
+
+
+# ---- lexer error after arbitrary legal material (tokens that span lines, comments, tabs, CRLF) ---------------------------
+SEGMENTS = ['', 'a', ' ', '\n', '\t', '/* c */', '/* c\n d */', "'s'", "'s\nt'", '`q\nr`', 'is\nnot', 'not\n in', '-- c\n', '\r\n', '"d\n\ne"', 'x is not\tnull']
+
+
+def lexer_error_seg_leaf(s0, s1, s2, post_len):
+    """the message of the real lexer for `<seg><seg><seg>#<post>`: the line shown is the source line holding '#', the caret is
+    under it"""
+    text = SEGMENTS[s0] + SEGMENTS[s1] + SEGMENTS[s2] + '#' + 'b' * post_len
+    at = text.index('#')
+    src_line = text[:at].count('\n')
+    col = at - (text.rfind('\n', 0, at) + 1)
+    lx = MindsDBLexer()
+    try:
+        list(lx.tokenize(text))
+    except LexError as e:
+        msg = str(e.args[0])
+        lines = msg.split('\n')
+        caret, shown = lines[-1], lines[-2]
+        if not lines[0].startswith('Illegal character') or '^' not in caret:
+            return False
+        c = caret.index('^')
+        want_line = text.split('\n')[src_line]
+        # the displayed line is '>' + source line (the message format of the lexer); the caret is below the '#'
+        return shown[:1] == '>' and shown[1:] == want_line and c < len(shown) and shown[c] == '#' and c - 1 == col
+    return False
+
+
+def lexer_error_segments(s0: int, s1: int, s2: int, post_len: int) -> bool:
+    """
+    pre: 0 <= s0 < 16 and 0 <= s1 < 16 and 0 <= s2 < 16 and 0 <= post_len <= 2
+    post: _
+    """
+    s0, s1, s2, post_len = _ci(s0, 15), _ci(s1, 15), _ci(s2, 15), _ci(post_len, 2)
+    with NoTracing():
+        return lexer_error_seg_leaf(s0, s1, s2, post_len)
